@@ -340,6 +340,13 @@ def wiring_paths(col, gcode, paths, I):
         plm = [dict(e[3]) for e in st.trace if e[0] == 'args' and e[2] == 'processLinearMoves']
         pa = calls.get(('planArc', 0))
         if pa is None:
+            from .pathfacts import arc_executed
+            if arc_executed(f) and f.pre_enabled is not False:     # with exclusion disabled nothing needs testing (tracking: C08.R7)
+                col.instance('C16.R8', (gcode, 'not sampled', tuple(f.decisions()[-4:])))
+                col.report('C16.R8', where, '%s with a non-zero centre offset is not sampled' % gcode,
+                           'the path decided that a centre offset (I / J, or the offsets computed from R) is not zero - the '
+                           'firmware executes that arc (without X / Y words it is a full circle) - but planArc is not called: no '
+                           'point of the arc is tested against the regions', detail={'entry': p.entry, 'decisions': f.decisions()[-8:]})
             continue
         col.instance('C16.R8', (gcode, f.describe(), tuple(f.decisions()[-4:])))
         detail = {'entry': p.entry, 'decisions': f.decisions()[-8:]}
